@@ -20,7 +20,7 @@ func init() {
 		Rule: "hostile, structure-aware inputs: a valid scenario (as in C01) is mutated by 1..4 operators drawn from: HTTP method (incl. unknown ones), path and query mutations (escapes, %00, '//', ':' suffixes, " +
 			"very long, unicode), header mutations (duplicate/conflicting Content-Type, Content-Length, protocol version, timeouts at 2^31/2^63 boundaries, unknown encodings, header floods), " +
 			"body mutations (byte flips, truncation, envelope lengths up to 0xFFFFFFFF, random bytes, body read errors), HTTP version, missing Flusher; and the backend follows a random script " +
-			"(any status 0..1000, arbitrary headers incl. huge numeric grpc-status and duplicate Content-Length, arbitrary body bytes and write pattern, declared length smaller/larger than written, early return, " +
+			"(any status 0..1000, arbitrary headers incl. huge numeric grpc-status, grpc-message values assembled from valid, truncated and non-hex escape fragments (in the head or in real trailers) and duplicate Content-Length, messages that fail inside the decompressor or inflate past the limit, arbitrary body bytes and write pattern, declared length smaller/larger than written, early return, " +
 			"writes after completion, WriteHeader twice, panic). monitors: recover() around ServeHTTP (any panic other than the backend's own scripted one), journal-before-execute for process-fatal errors, " +
 			"wall-clock watchdog (stall = inconclusive/violation after isolated re-run), recorder assertions (status code range, one head, Content-Length = bytes written, no body on 204/304, no I/O after return). " +
 			"non-trivial = the request is not a valid request of any protocol or the backend script violates its protocol; distinct by (mutation operators, script flavour, outcome class)",
